@@ -22,8 +22,8 @@ RULE = ("one run = one generated table MDP (discounted with any reward signs and
         "decision-log digest; non-trivial = >=1 decision and >=1 oracle clause")
 REAL = ["msdm.algorithms.laostar (LAOStar, ExplicitStateGraph, SolutionGraph, unmodified)", "msdm QuickTabularMDP wrapper, DictDistribution"]
 STUB = ["table MDP behind msdm's model interface", "random.Random stream (SimRandom)", "reference value iteration + exact policy evaluation"]
-ASSUMPTIONS = ["<= 7 states; tolerance 1e-6 relative between LAO*'s linear solves and the reference", "every state offers at least one action (C01's domain)",
-               "max_lao_star_iterations=10^4: hitting it on <= 8 states counts as failing to report convergence"]
+ASSUMPTIONS = ["mostly <= 7 states, 4% 10-20, 0.3% chains of 120-180 states; tolerance 1e-6 relative (plus 1e-11 of the problem's value scale) between LAO*'s linear solves and the reference", "every state offers at least one action (C01's domain)",
+               "max_lao_star_iterations=10^4: hitting it on these models counts as failing to report convergence"]
 from sim.models import SEAM_RANGES  # noqa: E402
 ASSUMPTIONS = ASSUMPTIONS + [SEAM_RANGES]
 TOL = 1e-6
